@@ -67,7 +67,7 @@ func errStr(err error) string {
 
 // entryByName resolves e<N> to the entry declared under that name.
 func (w *World) entryByName(n string) ipfslog.Entry {
-	i := atoi(strings.TrimPrefix(n, "e"))
+	i := atoi(strings.TrimSuffix(strings.TrimPrefix(n, "e"), "!"))
 	if i < 1 || i > len(w.entries) {
 		return nil
 	}
@@ -129,6 +129,17 @@ func (w *World) RunScript(lines []string) (err error) {
 			line = strings.Join(toks, " ")
 			if strings.Contains(line, "e0") && len(w.stores[p].OpLog().Values().Slice()) == 0 {
 				continue // no entry to use as a bound
+			}
+		}
+		if toks[0] == "forge" || toks[0] == "inject" {
+			for i, t := range toks {
+				if strings.Contains(t, "@") {
+					toks[i] = w.resolveSymbols(t)
+				}
+			}
+			line = strings.Join(toks, " ")
+			if strings.Contains(line, "=e0") || strings.Contains(line, ",e0") {
+				continue
 			}
 		}
 		w.printf("op %s\n", line)
@@ -356,5 +367,42 @@ func (w *World) execOpExtra(ctx context.Context, toks []string) error {
 	if ok, err := w.execGateOp(ctx, toks); ok || err != nil {
 		return err
 	}
+	if ok, err := w.execForgeOp(ctx, toks); ok || err != nil {
+		return err
+	}
+	if toks[0] == "final10" || toks[0] == "final11" {
+		w.printf("%s\n", toks[0])
+		return nil
+	}
 	return fmt.Errorf("unknown op %s", toks[0])
+}
+
+// resolveSymbols replaces @last (the most recently declared entry) and @heads<p> (peer p's current heads).
+func (w *World) resolveSymbols(tok string) string {
+	i := strings.IndexByte(tok, '=')
+	key, val := tok[:i+1], tok[i+1:]
+	var out []string
+	for _, part := range strings.Split(val, ",") {
+		switch {
+		case part == "@last":
+			if w.lastForged != "" {
+				out = append(out, w.lastForged)
+			} else {
+				out = append(out, fmt.Sprintf("e%d", len(w.entries)))
+			}
+		case strings.HasPrefix(part, "@heads"):
+			p := atoi(part[6:])
+			if s, ok := w.stores[p]; ok {
+				for _, h := range s.OpLog().Heads().Slice() {
+					out = append(out, w.name(h))
+				}
+			}
+		default:
+			out = append(out, part)
+		}
+	}
+	if len(out) == 0 {
+		return key + "e0"
+	}
+	return key + strings.Join(out, ",")
 }
